@@ -53,12 +53,12 @@ fn qwire(q: usize) -> Vec<u8> {
     v
 }
 
-/// The request of caller `i` (i < 4) for question `q`. The caller index is
-/// encoded in the AD/CD header bits, which no transport touches and which
+/// The request of caller `i` (i < 8) for question `q`. The caller index is
+/// encoded in the Z/AD/CD header bits, which no transport touches and which
 /// play no role in matching; the mock reads it back from the written bytes,
 /// so the frame → caller mapping is exact even for identical questions.
 fn request_bytes(i: usize, q: usize) -> Vec<u8> {
-    let mut v = vec![0, 0, 0x01, ((i & 3) as u8) << 4, 0, 1, 0, 0, 0, 0, 0, 0];
+    let mut v = vec![0, 0, 0x01, ((i & 7) as u8) << 4, 0, 1, 0, 0, 0, 0, 0, 0];
     v.extend_from_slice(&qwire(q));
     v
 }
@@ -152,7 +152,7 @@ fn parse_request(bytes: &[u8], what: &str) -> (usize, u16, usize) {
             std::process::exit(2);
         }
     };
-    let idx = ((m.flags >> 4) & 3) as usize;
+    let idx = ((m.flags >> 4) & 7) as usize;
     let q = (0..2).find(|q| {
         let mut p = Vec::new();
         let want = wire::read_name(QNAMES[*q], 0, &mut p).unwrap().0;
@@ -433,6 +433,8 @@ struct Global {
     transitions: AtomicU64,
     outcomes: Stats,    // distinct per-execution outcome vectors
     verbose: bool,
+    /// the 8 executions (>= 2 deviations) with the smallest case hash
+    samples: Mutex<BTreeMap<u64, Value>>,
 }
 
 #[derive(Clone, Debug, PartialEq, Eq)]
@@ -479,6 +481,12 @@ struct Core<'a> {
     /// (caller, id of the message it was handed) when the caller's request had
     /// not yet reached the wire at completion: checked when it does
     deferred_id: Vec<(usize, u16)>,
+    /// Err completions not yet examined for an environmental cause
+    err_unexamined: Vec<(usize, String)>,
+    /// the environment has done something that may fail any request
+    excuse_all: bool,
+    /// ... or this particular request
+    excused: Vec<bool>,
 }
 
 fn err_class(e: &Error) -> String {
@@ -512,6 +520,9 @@ impl<'a> Core<'a> {
             aborted: false,
             budget: None,
             deferred_id: Vec::new(),
+            err_unexamined: Vec::new(),
+            excuse_all: false,
+            excused: vec![false; plan.len()],
         }
     }
     fn choose(&self, n: usize, label: &'static str) -> usize {
@@ -596,6 +607,7 @@ impl<'a> Core<'a> {
                 self.note(format!("request {i} -> Err({e})"));
                 let k = format!("result.Err.{e}");
                 self.count(&k);
+                self.err_unexamined.push((i, e.clone()));
             }
         }
         self.reqs[i].result = Some(res);
@@ -678,6 +690,22 @@ impl<'a> Core<'a> {
                     format!("C15|{}|matching-answer-delivered|request-not-completed", self.tname),
                     format!("request {i}: its answer {} was delivered on a healthy connection but the request is still pending", hex(&bytes)),
                 ),
+            }
+        }
+    }
+
+    /// An Err needs a cause in what the environment did (fault, close,
+    /// non-matching message under the request's ID, elapsed time). Called by
+    /// the harness after it has updated the excuse flags.
+    fn check_spurious(&mut self) {
+        for (i, e) in std::mem::take(&mut self.err_unexamined) {
+            if self.excuse_all || self.excused[i] {
+                self.count("err.has-environmental-cause");
+            } else {
+                self.violate(
+                    format!("C15|{}|spurious-error|{e}", self.tname),
+                    format!("request {i} completed with Err({e}) although the peer, the sockets and the clock gave no cause"),
+                );
             }
         }
     }
@@ -805,10 +833,16 @@ impl<'a> Core<'a> {
         self.counters.insert(format!("{}.executions", self.tname), 1);
         *self.counters.entry(format!("{}.deviations.{dev}", self.tname)).or_insert(0) += 1;
         g.stats.merge_counts(&self.counters);
-        let want_sample = dev >= 2;
-        if want_sample {
-            let (t, c, l, o, d) = (self.tname, self.cfg.clone(), self.log.clone(), self.req_status(), ch.describe());
-            g.stats.sample(8, || json!({"transport": t, "cfg": c, "choices": d, "log": l, "outcome": o}));
+        if dev >= 2 {
+            let key = fnv(format!("{}|{}|{:?}|{}", self.tname, self.cfg, ch.choices(), g.all_cuts.load(Ordering::Relaxed)).as_bytes());
+            let mut sm = g.samples.lock().unwrap();
+            if sm.len() < 8 || sm.keys().next_back().map(|k| key < *k).unwrap_or(true) {
+                sm.insert(key, json!({"transport": self.tname, "cfg": self.cfg, "choices": ch.describe(), "log": self.log, "outcome": self.req_status()}));
+                while sm.len() > 8 {
+                    let last = *sm.keys().next_back().unwrap();
+                    sm.remove(&last);
+                }
+            }
         }
     }
 }
@@ -821,10 +855,13 @@ impl<'a> Core<'a> {
 struct StreamCfg {
     plan: Vec<usize>,
     idle0: bool,
+    /// size of the first wave of submissions; the rest is submitted (by
+    /// default) once at most one request is still open at the peer
+    wave1: usize,
 }
 impl StreamCfg {
     fn json(&self) -> Value {
-        json!({"plan": self.plan, "idle_timeout_zero": self.idle0})
+        json!({"plan": self.plan, "idle_timeout_zero": self.idle0, "first_wave": self.wave1})
     }
 }
 
@@ -871,9 +908,14 @@ fn account_frame(core: &mut Core, entries: &mut [Entry], conn: usize, healthy: b
     if let Some(e) = entries.iter_mut().find(|e| e.open && e.conn == conn && e.id == id) {
         e.open = false;
         let r = e.req;
-        if healthy && core.pending(r) && answers(msg, &[id], e.q).is_ok() {
+        if answers(msg, &[id], e.q).is_err() {
+            core.excused[r] = true; // a non-answer under its ID
+        } else if healthy && core.pending(r) {
             core.expect.push((r, msg.to_vec()));
         }
+    } else {
+        // unsolicited message: a transport may treat the connection as broken
+        core.excuse_all = true;
     }
 }
 
@@ -915,6 +957,10 @@ async fn run_stream(g: &Global, cfg: &StreamCfg, ch: Arc<Mutex<Chooser>>) {
             }
         }
         let healthy = !peer.fatal && tr_alive;
+        if !healthy || st.lock().unwrap().werr {
+            core.excuse_all = true;
+        }
+        core.check_spurious();
         {
             let s = st.lock().unwrap();
             let ex = format!(
@@ -934,16 +980,24 @@ async fn run_stream(g: &Global, cfg: &StreamCfg, ch: Arc<Mutex<Chooser>>) {
         let open: Vec<usize> = (0..entries.len()).filter(|i| entries[*i].open).collect();
         let next_unsub = (0..core.reqs.len()).find(|i| !core.reqs[*i].submitted);
         let mut menu: Vec<SAct> = Vec::new();
-        if next_unsub.is_some() {
+        let submit_now = match next_unsub {
+            Some(i) => i < cfg.wave1 || open.len() <= 1 || !healthy,
+            None => false,
+        };
+        let deliver_default = !submit_now && healthy && !open.is_empty();
+        if submit_now {
             menu.push(SAct::Submit);
-        } else if healthy && !open.is_empty() {
+        } else if deliver_default {
             menu.push(SAct::Deliver(open[0], RKind::Answer));
         } else {
             menu.push(SAct::Finish);
         }
+        if next_unsub.is_some() && !submit_now {
+            menu.push(SAct::Submit);
+        }
         if healthy {
             for &e in &open {
-                if !(next_unsub.is_none() && e == open[0]) {
+                if !(deliver_default && e == open[0]) {
                     menu.push(SAct::Deliver(e, RKind::Answer));
                 }
             }
@@ -1120,6 +1174,7 @@ async fn run_stream(g: &Global, cfg: &StreamCfg, ch: Arc<Mutex<Chooser>>) {
                 let c = conn.take();
                 let _ = guard(move || drop(c));
                 core.note("all connection handles dropped".into());
+                core.excuse_all = true;
                 // wake the transport: dropping the last sender wakes the receiver
                 core.quiesce(&mut tr);
                 for f in take_frames(&st) {
@@ -1169,6 +1224,8 @@ struct DgSock {
 struct DgShared {
     socks: Vec<DgSock>,
     connects: u32,
+    /// callers that met a connect/send fault
+    faulted: Vec<usize>,
 }
 
 #[derive(Clone)]
@@ -1209,6 +1266,7 @@ impl AsyncConnect for DgConnect {
         let mut sh = self.sh.lock().unwrap();
         sh.connects += 1;
         if fail {
+            sh.faulted.push(owner);
             return Box::pin(std::future::ready(Err(io::Error::new(io::ErrorKind::AddrInUse, "mock connect error"))));
         }
         let idx = sh.socks.len();
@@ -1221,10 +1279,14 @@ impl AsyncConnect for DgConnect {
 impl AsyncDgramSend for DgConn {
     fn poll_send(&self, _cx: &mut Context<'_>, buf: &[u8]) -> Poll<Result<usize, io::Error>> {
         let c = if self.faults { self.ch.lock().unwrap().choose(3, "dgram-send") } else { 0 };
+        let mut sh = self.sh.lock().unwrap();
+        if c != 0 {
+            let o = sh.socks[self.idx].owner;
+            sh.faulted.push(o);
+        }
         if c == 2 {
             return Poll::Ready(Err(io::Error::new(io::ErrorKind::PermissionDenied, "mock send error")));
         }
-        let mut sh = self.sh.lock().unwrap();
         let s = &mut sh.socks[self.idx];
         s.sent.push(buf.to_vec());
         s.sent_at = Some(Instant::now());
@@ -1372,6 +1434,10 @@ async fn run_dgram(g: &Global, cfg: &DgramCfg, ch: Arc<Mutex<Chooser>>) {
             break;
         }
         dg_learn(&mut core, &sh, &mut learnt);
+        for o in sh.lock().unwrap().faulted.clone() {
+            core.excused[o] = true;
+        }
+        core.check_spurious();
         let waiting = dg_waiting(&sh);
         let ex = format!("{:?}|t{:?}", waiting.iter().map(|w| (w.req, w.prev_id.is_some())).collect::<Vec<_>>(), core.reqs.iter().map(|r| r.ids.len()).collect::<Vec<_>>());
         core.state(&ex);
@@ -1429,6 +1495,9 @@ async fn run_dgram(g: &Global, cfg: &DgramCfg, ch: Arc<Mutex<Chooser>>) {
             core.delivered.push(Delivered { bytes: msg.clone(), udp: true });
             if msg.len() >= 12 && core.pending(w.req) && answers(&msg, &[w.id], w.q).is_ok() {
                 core.expect.push((w.req, msg.clone()));
+            } else {
+                // stray / malformed datagram: failing the request is within the property
+                core.excused[w.req] = true;
             }
             dg_feed(&sh, w.sock, Ok(msg));
         };
@@ -1485,11 +1554,13 @@ async fn run_dgram(g: &Global, cfg: &DgramCfg, ch: Arc<Mutex<Chooser>>) {
                 let w = waiting[wi].clone();
                 core.count("action.recv-error");
                 core.note(format!("socket of caller {} reports a receive error", w.req));
+                core.excused[w.req] = true;
                 dg_feed(&sh, w.sock, Err(()));
             }
             DAct::Tick => {
                 core.count("action.tick");
                 core.note(format!("virtual time advances by {DG_READ_TIMEOUT:?}"));
+                core.excuse_all = true;
                 if waiting.is_empty() {
                     idle_ticks += 1;
                     if idle_ticks > 4 {
@@ -1503,6 +1574,10 @@ async fn run_dgram(g: &Global, cfg: &DgramCfg, ch: Arc<Mutex<Chooser>>) {
         }
     }
     core.quiesce(&mut tr);
+    for o in sh.lock().unwrap().faulted.clone() {
+        core.excused[o] = true;
+    }
+    core.check_spurious();
     core.finish();
     let _ = guard(move || drop(conn));
 }
@@ -1554,13 +1629,15 @@ struct MultiCfg {
     udp_tc: bool,
     udp_retries: u8,
     allow_refuse: bool,
+    /// the stream peer does not answer by default (time passes instead)
+    tcp_silent: bool,
 }
 impl MultiCfg {
     fn json(&self) -> Value {
         if self.dgram_first {
-            json!({"plan": self.plan, "udp_default_reply_truncated": self.udp_tc, "udp_max_retries": self.udp_retries, "tcp_connect_may_be_refused": self.allow_refuse})
+            json!({"plan": self.plan, "udp_default_reply_truncated": self.udp_tc, "udp_max_retries": self.udp_retries, "tcp_connect_may_be_refused": self.allow_refuse, "stream_peer_silent_by_default": self.tcp_silent})
         } else {
-            json!({"plan": self.plan, "tcp_connect_may_be_refused": self.allow_refuse})
+            json!({"plan": self.plan, "tcp_connect_may_be_refused": self.allow_refuse, "stream_peer_silent_by_default": self.tcp_silent})
         }
     }
 }
@@ -1694,7 +1771,7 @@ async fn run_multi(g: &Global, cfg: &MultiCfg, ch: Arc<Mutex<Chooser>>) {
         } else if !waiting.is_empty() {
             menu.push(MAct::Udp(0, udp_default));
             default_kind = 1;
-        } else if !open.is_empty() {
+        } else if !open.is_empty() && !cfg.tcp_silent {
             menu.push(MAct::Tcp(open[0], RKind::Answer));
             default_kind = 2;
         } else if any_pending {
@@ -1934,9 +2011,11 @@ fn stream_cfgs() -> Vec<StreamCfg> {
     let mut v = Vec::new();
     for plan in [vec![0], vec![0, 0], vec![0, 1], vec![0, 0, 1]] {
         for idle0 in [false, true] {
-            v.push(StreamCfg { plan: plan.clone(), idle0 });
+            v.push(StreamCfg { plan: plan.clone(), idle0, wave1: plan.len() });
         }
     }
+    // four concurrent, then two more into recycled slots
+    v.push(StreamCfg { plan: vec![0, 0, 1, 1, 0, 1], idle0: false, wave1: 4 });
     v
 }
 
@@ -1964,18 +2043,21 @@ fn multi_cfgs() -> Vec<MultiCfg> {
                 // connect refusal only with a single caller (see assumptions)
                 let refuse: &[bool] = if plan.len() == 1 { &[false, true] } else { &[false] };
                 for &allow_refuse in refuse {
-                    v.push(MultiCfg { dgram_first: true, plan: plan.clone(), udp_tc, udp_retries, allow_refuse });
+                    v.push(MultiCfg { dgram_first: true, plan: plan.clone(), udp_tc, udp_retries, allow_refuse, tcp_silent: false });
                 }
             }
         }
     }
+    v.push(MultiCfg { dgram_first: true, plan: vec![0], udp_tc: true, udp_retries: 1, allow_refuse: false, tcp_silent: true });
     // multi_stream
     for plan in [vec![0], vec![0, 0], vec![0, 1]] {
         let refuse: &[bool] = if plan.len() == 1 { &[false, true] } else { &[false] };
         for &allow_refuse in refuse {
-            v.push(MultiCfg { dgram_first: false, plan: plan.clone(), udp_tc: false, udp_retries: 0, allow_refuse });
+            v.push(MultiCfg { dgram_first: false, plan: plan.clone(), udp_tc: false, udp_retries: 0, allow_refuse, tcp_silent: false });
         }
     }
+    v.push(MultiCfg { dgram_first: false, plan: vec![0], udp_tc: false, udp_retries: 0, allow_refuse: false, tcp_silent: true });
+    v.push(MultiCfg { dgram_first: false, plan: vec![0, 0], udp_tc: false, udp_retries: 0, allow_refuse: false, tcp_silent: true });
     v
 }
 
@@ -1991,6 +2073,7 @@ fn main() {
         transitions: AtomicU64::new(0),
         outcomes: Stats::new(),
         verbose: ctx.replay.is_some(),
+        samples: Mutex::new(BTreeMap::new()),
     };
     if let Some(path) = ctx.replay.clone() {
         let text = std::fs::read_to_string(&path).expect("replay file");
@@ -2018,14 +2101,26 @@ fn main() {
     let mut per_cfg = Vec::new();
     let mut capped_any = false;
     let cases = all_cases();
-    // pass 1: handful of cut points, full deviation bound;
-    // pass 2 (thorough only): every cut point of every frame, <= 2 deviations
-    let passes: Vec<(bool, usize)> = if thorough { vec![(false, 3), (true, 2)] } else { vec![(false, 2)] };
-    for (all_cuts, bound) in passes {
+    // (all cut points?, deviation bound, stream callers min..=max, other transports too?)
+    // quick:    every cut point, <= 2 deviations, everything up to 3 callers;
+    //           handful of cut points, <= 2 deviations, the 6-caller two-wave stream case.
+    // thorough: handful of cut points, <= 3 deviations, everything up to 3 callers;
+    //           every cut point, <= 2 deviations, stream with 3 callers;
+    //           every cut point, <= 3 deviations, stream with <= 2 callers;
+    //           handful of cut points, <= 2 deviations, the 6-caller two-wave stream case.
+    let passes: Vec<(bool, usize, usize, usize, bool)> = if thorough {
+        vec![(false, 3, 1, 3, true), (true, 2, 3, 3, false), (true, 3, 1, 2, false), (false, 2, 4, 8, false)]
+    } else {
+        vec![(true, 2, 1, 3, true), (false, 2, 4, 8, false)]
+    };
+    for (all_cuts, bound, min_callers, max_callers, others) in passes.into_iter() {
         g.all_cuts.store(all_cuts, Ordering::Relaxed);
         for case in &cases {
-            if all_cuts && !matches!(case, Case::Stream(_)) {
-                continue; // cut points exist only in the stream harness
+            match case {
+                Case::Stream(c) if c.plan.len() >= min_callers && c.plan.len() <= max_callers => {}
+                Case::Stream(_) => continue,
+                _ if others => {}
+                _ => continue,
             }
             let t0 = std::time::Instant::now();
             let (es, capped) = explore(bound, 200_000_000, |ch| run_case(&g, case, ch));
@@ -2048,7 +2143,7 @@ fn main() {
             "deviation_bound": bound,
             "per_config": per_cfg,
             "counters": g.stats.counters_json(),
-            "samples": g.stats.samples(),
+            "samples": g.samples.lock().unwrap().values().cloned().collect::<Vec<_>>(),
         }),
         &[],
     );
